@@ -790,3 +790,145 @@ pub fn metrics_snapshot(ctx: &VContext) -> VMetricsSnapshot {
         outbound_traffic_bytes: o,
     }
 }
+
+// ---------------------------------------------------------------------------------------------
+// The three service handlers over any transport
+// ---------------------------------------------------------------------------------------------
+
+fn verif_client_id(ctx: &VContext) -> log_utils::IdChain<u64> {
+    let (client, _) = Core::verif_next_ids(&ctx.0);
+    log_utils::IdChain::from(log_utils::IdItem::new(log_utils::CLIENT_ID_FMT, client))
+}
+
+/// `http_ping_handler::listen` as `Core::on_new_tls_connection` starts it for a ping host
+pub async fn ping_listen<T>(ctx: &VContext, protocol: VProtocol, io: VIo<T>) -> io::Result<()>
+where
+    T: 'static + AsyncRead + AsyncWrite + Unpin + Send,
+{
+    let id = verif_client_id(ctx);
+    let codec = Core::verif_make_codec(&ctx.0, protocol.into(), io, id.clone())?;
+    crate::http_ping_handler::listen(
+        ctx.0.shutdown.clone(),
+        codec,
+        ctx.0.settings.tls_handshake_timeout,
+        id,
+    )
+    .await;
+    Ok(())
+}
+
+/// `http_speedtest_handler::listen` as started for a speedtest host
+pub async fn speedtest_listen<T>(ctx: &VContext, protocol: VProtocol, io: VIo<T>) -> io::Result<()>
+where
+    T: 'static + AsyncRead + AsyncWrite + Unpin + Send,
+{
+    let id = verif_client_id(ctx);
+    let codec = Core::verif_make_codec(&ctx.0, protocol.into(), io, id.clone())?;
+    crate::http_speedtest_handler::listen(
+        ctx.0.shutdown.clone(),
+        codec,
+        ctx.0.settings.tls_handshake_timeout,
+        id,
+    )
+    .await;
+    Ok(())
+}
+
+/// `reverse_proxy::listen` as started for a reverse-proxy host
+pub async fn reverse_proxy_listen<T>(
+    ctx: &VContext,
+    protocol: VProtocol,
+    io: VIo<T>,
+    sni: String,
+) -> io::Result<()>
+where
+    T: 'static + AsyncRead + AsyncWrite + Unpin + Send,
+{
+    let id = verif_client_id(ctx);
+    let codec = Core::verif_make_codec(&ctx.0, protocol.into(), io, id.clone())?;
+    crate::reverse_proxy::listen(ctx.0.clone(), codec, sni, id).await;
+    Ok(())
+}
+
+// ---------------------------------------------------------------------------------------------
+// ICMP forwarder (raw sockets)
+// ---------------------------------------------------------------------------------------------
+
+#[derive(Debug, Clone, PartialEq, Eq, Hash)]
+pub struct VIcmpReport {
+    pub peer: IpAddr,
+    pub type_id: u8,
+    pub code: u8,
+    /// (identifier, sequence number) of the echo request this message answers
+    pub responded: Option<(u16, u16)>,
+    /// the 7.4 encoding the client would receive
+    pub encoded: Option<Vec<u8>>,
+}
+
+pub struct VIcmpMuxSource(Box<dyn crate::datagram_pipe::Source<Output = forwarder::IcmpDatagram>>);
+pub struct VIcmpMuxSink(Box<dyn crate::datagram_pipe::Sink<Input = downstream::IcmpDatagram>>);
+
+/// `IcmpForwarder::listen` of the context's forwarder (needs `settings.icmp`)
+pub async fn icmp_listen(ctx: &VContext) -> io::Result<()> {
+    match &ctx.0.icmp_forwarder {
+        Some(f) => f.clone().listen().await,
+        None => Err(io::Error::new(
+            io::ErrorKind::Other,
+            "ICMP is not configured",
+        )),
+    }
+}
+
+pub fn icmp_make_multiplexer(ctx: &VContext) -> io::Result<(VIcmpMuxSource, VIcmpMuxSink)> {
+    let f = ctx
+        .0
+        .icmp_forwarder
+        .as_ref()
+        .ok_or_else(|| io::Error::new(io::ErrorKind::Other, "ICMP is not configured"))?;
+    let (s, k) = f.make_multiplexer(log_utils::IdChain::empty())?;
+    Ok((VIcmpMuxSource(s), VIcmpMuxSink(k)))
+}
+
+/// (reply waiters, entries in the deadline index)
+pub fn icmp_waiters_len(ctx: &VContext) -> (usize, usize) {
+    ctx.0
+        .icmp_forwarder
+        .as_ref()
+        .map(|f| f.verif_waiters_len())
+        .unwrap_or((0, 0))
+}
+
+impl VIcmpMuxSink {
+    /// One decoded 7.3 request handed to the forwarder, exactly what the stream decoder produces
+    pub async fn write_request(&mut self, record: Bytes) -> io::Result<bool> {
+        let mut dec = http_icmp_codec::Decoder::new();
+        match dec.decode_chunk(record) {
+            DecodeResult::WantMore => {
+                Err(io::Error::new(io::ErrorKind::Other, "incomplete record"))
+            }
+            DecodeResult::Complete(d, _) => Ok(matches!(
+                self.0.write(d).await?,
+                crate::datagram_pipe::SendStatus::Sent
+            )),
+        }
+    }
+}
+
+impl VIcmpMuxSource {
+    pub async fn read(&mut self) -> io::Result<VIcmpReport> {
+        let d = self.0.read().await?;
+        let encoded = http_icmp_codec::Encoder::default()
+            .encode_packet(&d)
+            .map(|b| b.to_vec());
+        Ok(VIcmpReport {
+            peer: d.meta.peer,
+            type_id: d.message.type_id(),
+            code: d.message.code(),
+            responded: d
+                .message
+                .responded_echo_request()
+                .map(|e| (e.identifier, e.sequence_number)),
+            encoded,
+        })
+    }
+}
